@@ -48,6 +48,11 @@ def check(model: Model, rep: Report, tier: str):
                             keep=lambda c: "/structure/" in c.module.relpath.replace("\\", "/") and ("graph" in c.module.relpath or "composite" in c.module.relpath), floor=3)
     with rep.isolated():
         f8(model, rep)
+    from .c01 import r13 as _r13
+    with rep.isolated():
+        share_rule(rep, model, _r13, "C11.F10", "a nested block reports the channels of all its operations, a flattened circuit asks each operation itself: both give the same implicit "
+                   "predecessor only if the block's de-duplicated channel listing loses nothing -- ChannelIdentifier's hash separates the channels of a qubit and the helper de-duplicates "
+                   "through a hash container (= C01.R13)")
     from .c01 import r5
     with rep.isolated():
         share_rule(rep, model, r5, "C11.F6", "an operation that pointed at a dissolved sub-circuit is re-linked behind the LATEST node sharing one of its channels -- the leaf query "
